@@ -12,6 +12,7 @@
 import MajoranaVerif.Props.C01
 import MajoranaVerif.Props.C12
 import MajoranaVerif.Proofs.Mvp5Cycles
+import MajoranaVerif.Proofs.Mvp60Witness2
 open GoInt Model Model.Seq Proofs.Seq Proofs.Refine
 
 namespace Props.C07
@@ -253,5 +254,43 @@ example : ∃ hk,
     (by rw [hs.1]; exact driver_budget_suffices 12)
   rw [hs.1] at h4
   exact ⟨hk, h1, h2, h4⟩
+
+end Props.C07
+
+/-! ## MVP-6.0 (package M60): runs of the first superscalar variant that do not end as they should
+
+Proved counterexamples on `Model.Mvp60` (tied to the Go machine on every generated case). -/
+namespace Props.C07
+
+/-- **dead-lock after a cancelled load (MVP-6.0 with two or more execute units; found with the model).**
+`lb a1, 0(zero); bnez s0, l3; addi a3, zero, 5; l3: lb a2, 1(zero)` with `s0 = 1` ends on the one-unit machine
+(`a2 = 0x11`); on the two-unit machine the first load is cancelled by the flush of the branch (`Props.C01.mvp60_flush_drops_older_load`)
+but its line `[0, 64)` stays in `memoryManagementUnit.pendings`, and the second load polls it for ever: after 700 ticks the
+machine has not halted, unit 0 sits in `coPrepareRun`, nothing else is in flight, no counter is running.  (The Go machine runs
+into the harness's tick budget: status `hang`.) -/
+theorem mvp60_deadlock_after_cancelled_load :
+    (Model.Mvp60.run Proofs.Mvp60Witness.deadApp (Proofs.Mvp60Witness.ctxS0 64) 1 1 1000).halt = some .offEnd ∧
+    (Model.Mvp60.run Proofs.Mvp60Witness.deadApp (Proofs.Mvp60Witness.ctxS0 64) 1 1 1000).final.ctx.Registers.get1 12 = 0x11#32 ∧
+    Proofs.Mvp60Witness.deadObs 700 = (none, [(0, 64)], [.prepare, .none], [.none, .none], .done, 1) := by
+  obtain ⟨a, _, _, _, b, _⟩ := Proofs.Mvp60Witness.obs_eq Proofs.Mvp60Witness.dead_p1
+  exact ⟨a, b, Proofs.Mvp60Witness.dead_p2⟩
+
+/-- … and it never will: the two-unit machine does not halt within ANY number of ticks (after 700 ticks it is idle with no
+counter running, and such a state only repeats itself: `Proofs.Mvp60Fast.deadlock_forever`) -/
+theorem mvp60_deadlock_is_forever (f : Nat) :
+    (Model.Mvp60.run Proofs.Mvp60Witness.deadApp (Proofs.Mvp60Witness.ctxS0 64) 2 2 (700 + f)).halt = none :=
+  Proofs.Mvp60Witness.dead_forever f
+
+/-- **KF-ooo-spec-error on the model.**  `li a7, 0; beq a7, zero, l1; div t2, a7, zero; l1:` runs off the end on the
+unpipelined and the one-unit machine; the two-unit machine executes the division on the wrong path of the taken branch and
+returns its division-by-zero error. -/
+theorem mvp60_wrong_path_error :
+    (Model.Seq.runMvp1 Proofs.Mvp60Witness.errApp ⟨Proofs.Mvp60Witness.ctx0 64, 0⟩ 10).halt = some .offEnd ∧
+    (Model.Mvp60.run Proofs.Mvp60Witness.errApp (Proofs.Mvp60Witness.ctx0 64) 1 1 1000).halt = some .offEnd ∧
+    (Model.Mvp60.run Proofs.Mvp60Witness.errApp (Proofs.Mvp60Witness.ctx0 64) 2 2 1000).halt = some .err := by
+  obtain ⟨a, _⟩ := Proofs.Mvp60Witness.obsSeq_eq Proofs.Mvp60Witness.err_seq
+  obtain ⟨b, _⟩ := Proofs.Mvp60Witness.obs_eq Proofs.Mvp60Witness.err_p1
+  obtain ⟨c, _⟩ := Proofs.Mvp60Witness.obs_eq Proofs.Mvp60Witness.err_p2
+  exact ⟨a, b, c⟩
 
 end Props.C07
